@@ -14,22 +14,25 @@ COMPLETED = ALL_TERMINAL + " and (any(r.completed_at is not None for r in self.e
 STARTED = "any(r.started_at is not None for r in self.event_results.values()) or self.event_processed_at is not None"
 
 
-def _opt_datetime_term(expr):
+def _opt_datetime_term(expr, kind):
+    stamp = z3.Function('datetime_of_' + kind, Ref, z3.IntSort())
+
     def term(ex, selfv):
+        # only whether the timestamp is None is specified; its value is some datetime object (a function of the event,
+        # so that two evaluations of the same view give syntactically equal terms - values are never compared by the code under contract)
         c = ex.spec_bool(expr, {'self': selfv}, entry=ex.entry)
-        k = z3.Int(fresh_name('dt'))
-        return V(Ty('obj', ('opt',), cls='datetime'), z3.If(c, Ref.obj(k), NONE))
+        return V(Ty('obj', ('opt',), cls='datetime'), z3.If(c, Ref.obj(stamp(selfv.term)), NONE))
     return term
 
 
 def install(spec: Spec):
     P = spec.properties
     spec.fn('BaseEvent.event_completed_at', file=M, qual='BaseEvent.event_completed_at', params={'self': 'BaseEvent'}, returns='opt[datetime]',
-            spec_term=_opt_datetime_term(COMPLETED),
+            spec_term=_opt_datetime_term(COMPLETED, 'completed'),
             ensures=[('spec', '(result is not None) == (' + COMPLETED + ')', ['C03', 'C08', 'C13'])])
     P[('BaseEvent', 'event_completed_at')] = 'BaseEvent.event_completed_at'
     spec.fn('BaseEvent.event_started_at', file=M, qual='BaseEvent.event_started_at', params={'self': 'BaseEvent'}, returns='opt[datetime]',
-            spec_term=_opt_datetime_term(STARTED),
+            spec_term=_opt_datetime_term(STARTED, 'started'),
             ensures=[('spec', '(result is not None) == (' + STARTED + ')', ['C03', 'C08', 'C13'])])
     P[('BaseEvent', 'event_started_at')] = 'BaseEvent.event_started_at'
     spec.fn('BaseEvent.event_status', file=M, qual='BaseEvent.event_status', params={'self': 'BaseEvent'}, returns='str',
@@ -140,8 +143,40 @@ def install(spec: Spec):
     spec.methods[('BaseEvent', 'event_result_update')] = 'BaseEvent.event_result_update'
 
     # ------------------------------------------------------------------ children views and cancellation of pending child handlers (C03, C10)
+    def children_term(ex, selfv):
+        # the view is a function of the two fields it reads: the same heap gives the same list
+        er, ch = ex.heap_arr('event_results'), ex.heap_arr('event_children')
+        lt = parse_ty('list[BaseEvent]')
+        f = z3.Function('children_of', er.sort(), ch.sort(), Ref, lt.sort())
+        v = V(lt, f(er, ch, selfv.term))
+        memo = ex.st.flags.setdefault('children_axioms', set())
+        key = v.term.get_id()
+        bound = {b.term.get_id() for b in (getattr(ex, 'spec_locals', None) or {}).values() if z3.is_expr(b.term)}
+
+        def mentions_bound(t):
+            stack, seen = [t], set()
+            while stack:
+                x = stack.pop()
+                if x.get_id() in seen:
+                    continue
+                seen.add(x.get_id())
+                if x.get_id() in bound:
+                    return True
+                stack.extend(x.children())
+            return False
+
+        if key not in memo and not (bound and mentions_bound(v.term)):
+            memo.add(key)
+            C = ex.spec.functions['BaseEvent.event_children']
+            ex.assume(ex.list_len(v) >= 0)
+            for cl in C.ensures:
+                ex.assume(ex.spec_bool(cl.expr, {'self': selfv, 'result': v}, entry=ex.entry))
+        return v
+
     spec.fn('BaseEvent.event_children', file=M, qual='BaseEvent.event_children', params={'self': 'BaseEvent'}, returns='list[BaseEvent]', trusted=True, allocates=False,
-            ensures=[('every_recorded_child_listed', "forall(lambda k, i: implies(k in self.event_results and 0 <= i and i < len(self.event_results[k].event_children), "
+            spec_term=children_term,
+            ensures=[('no_results_no_children', 'implies(len(self.event_results) == 0, len(result) == 0)', ['C03']),
+                     ('every_recorded_child_listed', "forall(lambda k, i: implies(k in self.event_results and 0 <= i and i < len(self.event_results[k].event_children), "
                                                      "self.event_results[k].event_children[i] in result), 'str', 'int')", ['C03', 'C10']),
                      ('only_recorded_children', "forall(lambda i: implies(0 <= i and i < len(result), exists(lambda k: k in self.event_results and result[i] in self.event_results[k].event_children, 'str')))", ['C03'])],
             notes='view: concatenation of the per-result event_children lists in handler order (loop of list.extend); assumed, not verified')
@@ -158,3 +193,26 @@ def install(spec: Spec):
                                                      "self.event_children[i].event_results[k].status != 'pending'), 'int', 'str')", ['C10'])],
             notes='recursive walk over event_children calling EventResult.update(error=...) on pending results; contract assumed here (body: two nested loops + recursion)')
     spec.methods[('BaseEvent', 'event_cancel_pending_child_processing')] = 'BaseEvent.event_cancel_pending_child_processing'
+
+    # ------------------------------------------------------------------ completion (C03 C08)
+    spec.define('signalled', ['e'], 'e._event_completed_signal is not None and e._event_completed_signal.ev_set')
+    spec.define('all_results_terminal', ['e'], ALL_TERMINAL.replace('self.', 'e.'))
+    spec.define('children_completed', ['e'], "forall(lambda i: implies(0 <= i and i < len(e.event_children), e.event_children[i].event_status == 'completed'))")
+
+    spec.fn('BaseEvent.event_are_all_children_complete', file=M, qual='BaseEvent.event_are_all_children_complete', trusted=True, allocates=False,
+            params={'self': 'BaseEvent'}, returns='bool',
+            ensures=[('true_only_if_children_completed', 'implies(result, children_completed(self))', ['C03'])],
+            notes='recursive descent over event_children with a visited set; contract (one level: every direct child has status completed; '
+                  'descendants by the same contract at the recursive call) assumed, body not verified')
+    spec.methods[('BaseEvent', 'event_are_all_children_complete')] = 'BaseEvent.event_are_all_children_complete'
+
+    spec.fn('BaseEvent.event_mark_complete_if_all_handlers_completed', file=M, qual='BaseEvent.event_mark_complete_if_all_handlers_completed',
+            params={'self': 'BaseEvent'}, returns='NoneType',
+            requires=[('in_loop', 'loop_running()', [])],
+            modifies=[('_event_completed_signal', 'self'), ('ev_set', '*'), ('event_processed_at', 'self')],
+            ensures=[('signals_only_when_handlers_done', 'implies(signalled(self) and not old(signalled(self)), old(all_results_terminal(self)))', ['C03']),
+                     ('signals_only_when_children_done', 'implies(signalled(self) and not old(signalled(self)), old(children_completed(self)))', ['C03']),
+                     ('never_unsignals', 'implies(old(signalled(self)), signalled(self) and self.event_processed_at is old(self.event_processed_at))', ['C08']),
+                     ('signals_when_handlers_and_children_done', 'implies(old(all_results_terminal(self)) and old(len(self.event_results) == 0), signalled(self))', ['C03']),
+                     ('other_signals_untouched', "forall(lambda s: implies(s is not self._event_completed_signal, s.ev_set == old(s.ev_set)), 'AsyncEvent')", ['C03', 'C08'])])
+    spec.methods[('BaseEvent', 'event_mark_complete_if_all_handlers_completed')] = 'BaseEvent.event_mark_complete_if_all_handlers_completed'
